@@ -160,6 +160,14 @@ package router
 //@   requires nonnil(f) && f.data != nil && w != nil && hdr != nil
 //@   callsite state.State.SetEncryptionSession only-source-session [C07]: arg1 == f.SrcIP()
 
+// pong: a ping state is handed out at most once - plucking removes it - so its notify channel is closed at most once
+// (a second pong with the same id finds no state; C13: no "close of closed channel" from repeated valid pongs).
+//@ func PingPongHandler.pluckActive
+//@   ensures plucked-states-are-gone [C13]: !has(h.active, pingID)
+//@ func PingPongHandler.handleResponse
+//@   requires hdr != nil
+//@   callsite close notify-closed-only-for-a-plucked-state [C13]: !has(h.active, hdr.PingID)
+
 // ---- gossip (C08, C09) -----------------------------------------------------------------------------------
 // The context every hop signs: origin address | origin timestamp | origin signature (the frame's 64 auth bytes).
 //@ func AnnouncePingHandler.signingContext
